@@ -26,6 +26,7 @@ import pprint as _pprint
 from .. import core
 from ..core import cz, cbool
 from ..runner import Entry, differential
+from . import c01_translate
 
 PRE = ("From EsVerif.Common Require Import Base Bytes.\n"
        "From EsVerif.C01 Require Import Framing Model Spec Exec.\n"
@@ -260,7 +261,7 @@ ADV = [
 ]
 
 
-def table_cases(ctx, round, n_random, with_header=True, maxrows=None, layouts=True):
+def table_cases(ctx, round, n_random, with_header=True, maxrows=None, layouts=True, grid=(0, 1)):
     r = ctx.rng
     cs = []
     maxrows = maxrows or ctx.n(6, 12)
@@ -272,8 +273,14 @@ def table_cases(ctx, round, n_random, with_header=True, maxrows=None, layouts=Tr
             cs.append({"dtype": fields, "rows": gen_rows(r, fields, nrows), "header": repr(hdr) if with_header else None,
                        "family": fam, "adv": True})
         # every base type x shape kind x order at least once
+        gj = 0
         for i, b in enumerate(BASES):
             for order in "<>":
+                gj = 5 * i + (order == ">")
+                if not ctx.quick():
+                    pass                     # thorough: the full grid for every entry point
+                elif gj % grid[1] != grid[0]:
+                    continue                 # quick: the grid is shared out among the entry points of a family
                 size = int(b[1:])
                 o = "|" if (size == 1 or b[0] == "S") else order
                 shape = [[], [2], [2, 1], [1, 2, 2]][(i + (order == ">")) % 4]
@@ -507,6 +514,7 @@ def monitor(text, head, data_dtype):
 class SFileEntry(Entry):
     """sfile.write/read, SFile(...).write/.read/[:], io.write/io.read for *.rec"""
     kind = "sfile_fn"
+    grid = (0, 1)
 
     def __init__(self):
         self.name = self.kind
@@ -515,7 +523,7 @@ class SFileEntry(Entry):
         self.nmonitored = 0
 
     def cases(self, ctx, round=0):
-        cs = table_cases(ctx, round, ctx.n(40, 1100))
+        cs = table_cases(ctx, round, ctx.n(36, 1100), grid=self.grid)
         for c in cs:
             c["via"] = ctx.rng.choice(["read", "slice"])
         return cs
@@ -635,10 +643,12 @@ class SFileFn(SFileEntry):
 
 class SFileCls(SFileEntry):
     kind = "sfile_cls"
+    grid = (0, 2)
 
 
 class IoFn(SFileEntry):
     kind = "io_fn"
+    grid = (1, 2)
 
 
 class RecfileEntry(Entry):
@@ -649,7 +659,7 @@ class RecfileEntry(Entry):
         self.name = self.kind
 
     def cases(self, ctx, round=0):
-        cs = table_cases(ctx, round, ctx.n(35, 900), with_header=False)
+        cs = table_cases(ctx, round, ctx.n(35, 900), with_header=False, grid=self.grid)
         for c in cs:
             c["nrows"] = ctx.rng.choice(["absent", "absent", "exact", "none", "negative"])
             c["via"] = ctx.rng.choice(["read", "slice"])
@@ -715,10 +725,12 @@ class RecfileEntry(Entry):
 
 class RecfileFn(RecfileEntry):
     kind = "recfile_fn"
+    grid = (0, 2)
 
 
 class RecfileCls(RecfileEntry):
     kind = "recfile_cls"
+    grid = (1, 2)
 
 
 class Region(Entry):
@@ -727,7 +739,7 @@ class Region(Entry):
     name = "sfile_region"
 
     def cases(self, ctx, round=0):
-        cs = table_cases(ctx, round, ctx.n(25, 700), layouts=False)
+        cs = table_cases(ctx, round, ctx.n(25, 700), layouts=False, grid=(0, 3))
         for c in cs:
             c["nrows"] = ctx.rng.choice(["absent", "exact"])
         return cs
@@ -1045,6 +1057,51 @@ def source_tie(ctx):
                       found_input=False)
 
 
+def gen_tie(ctx):
+    """DESIGN 4.1: C01/Gen.v (constants + small integer functions) is regenerated from the source of the tree under
+    check.  Identical to the committed text: the compiled theorems of GenProofs.v (C01_gen_* in Properties.v) are about
+    this source.  Different: Gen.v + GenProofs.v are recompiled against the new text in an overlay; if that fails the tie
+    is broken (the model's constants / integer functions are not the source's any more)."""
+    import shutil
+    import subprocess
+    try:
+        text = c01_translate.generate(ctx.impl)
+    except Exception as e:  # noqa  (TranslateError, Untranslatable, OSError, SyntaxError: all fail closed)
+        ctx.obligation("Gen.v regenerated from sfile.py / Util.py / records.cpp (c01_translate)", False, str(e))
+        ctx.violation("tie to the source broken: the constants / integer functions left the translatable shape (%s)" % str(e)[:300],
+                      {"kind": "translation", "error": str(e), "no_longer_checks": "C01/Gen.v = source; C01_gen_* theorems"}, found_input=False)
+        return
+    ctx.obligation("Gen.v regenerated from sfile.py / Util.py / records.cpp (c01_translate)", True)
+    committed = open(os.path.join(core.COQDIR, "theories", "C01", "Gen.v")).read()
+    if text == committed:
+        ctx.obligation("regenerated Gen.v is identical to the committed text (GenProofs.vo is about this source)", True)
+        return
+    ov = os.path.join(ctx.work, "genov")
+    shutil.rmtree(ov, ignore_errors=True)
+    os.makedirs(ov)
+    open(os.path.join(ov, "Gen.v"), "w").write(text)
+    gp = open(os.path.join(core.COQDIR, "theories", "C01", "GenProofs.v")).read()
+    imp = "From EsVerif.C01 Require Import Framing Model Gen."
+    assert gp.count(imp) == 1
+    open(os.path.join(ov, "GenProofs.v"), "w").write(gp.replace(imp, "From EsVerif.C01 Require Import Framing Model.\nFrom EsVerifRun Require Import Gen."))
+    log, ok = "", True
+    for m in ("Gen", "GenProofs"):
+        r = subprocess.run(["timeout", "300", "coqc", "-Q", os.path.join(core.COQDIR, "theories"), "EsVerif", "-Q", ov, "EsVerifRun",
+                            "-w", "-notation-overridden", os.path.join(ov, m + ".v")], stdout=subprocess.PIPE, stderr=subprocess.STDOUT, text=True)
+        log += r.stdout
+        if r.returncode != 0:
+            ok = False
+            break
+    ctx.obligation("regenerated Gen.v differs from the committed text: GenProofs.v re-proved against it", ok, log[-600:])
+    if ok:
+        ctx.notes.append("Gen.v regenerated from the source differs from the committed text; GenProofs.v was re-proved against it")
+    else:
+        ctx.violation("tie to the source broken: the statements of C01/GenProofs.v (model constants / integer functions = source) do not "
+                      "hold for the regenerated Gen.v: %s" % " ".join(log.split())[-300:],
+                      {"kind": "translation", "regenerated_Gen_v": text, "coqc_log_tail": log[-2000:],
+                       "no_longer_checks": "C01_gen_consts / C01_gen_recfile_read / C01_gen_slice_agree"}, found_input=False)
+
+
 def coqchk_step(ctx):
     import subprocess
     cmd = ["timeout", "900", "coqchk", "-silent", "-o", "-Q", os.path.join(core.COQDIR, "theories"), "EsVerif", "EsVerif.C01.Properties"]
@@ -1085,6 +1142,7 @@ def run(ctx, replay=None):
     _TMP[0] = os.path.join(ctx.work, "files")
     if core.proof_step(ctx, "C01", core.ALLOW_DISCRETE) and replay is None:
         source_tie(ctx)
+        gen_tie(ctx)
         if not ctx.quick():
             coqchk_step(ctx)
     differential(ctx, PRE, ENTRIES, replay)
